@@ -13,6 +13,8 @@ import (
 	"math/rand"
 	"os"
 	"path/filepath"
+	"reflect"
+	"sort"
 	"strconv"
 	"strings"
 	"time"
@@ -81,6 +83,11 @@ func buildReq(t []string) interface{} {
 		r := requests.SignatureProposalParticipantsListRequest{SigningThreshold: atoi(t[1]), CreatedAt: parseTimeTok(t[2])}
 		for i := 0; i < n; i++ {
 			g := t[4+3*i:]
+			if g[0] == "NIL" {
+				// a JSON null in the participant list decodes to a nil entry
+				r.Participants = append(r.Participants, nil)
+				continue
+			}
 			r.Participants = append(r.Participants, &requests.SignatureProposalParticipantsEntry{
 				Username: string(unhexTok(g[0])), PubKey: unhexTok(g[1]), DkgPubKey: unhexTok(g[2])})
 		}
@@ -265,12 +272,89 @@ func (w *fsmWorld) redo(ev string, args []string) string {
 	return ob
 }
 
+// canonValue: a value written out field by field at full precision (times as nanoseconds, bytes as hex, map keys sorted),
+// independent of the code's own (un)marshalling
+func canonValue(v reflect.Value, b *strings.Builder) {
+	if !v.IsValid() {
+		b.WriteString("nil")
+		return
+	}
+	if t, ok := v.Interface().(time.Time); ok && v.CanInterface() {
+		if t.IsZero() {
+			b.WriteString("T0")
+		} else {
+			fmt.Fprintf(b, "T%d", t.UnixNano())
+		}
+		return
+	}
+	switch v.Kind() {
+	case reflect.Ptr, reflect.Interface:
+		if v.IsNil() {
+			b.WriteString("nil")
+			return
+		}
+		canonValue(v.Elem(), b)
+	case reflect.Struct:
+		b.WriteString("{")
+		for i := 0; i < v.NumField(); i++ {
+			if v.Type().Field(i).PkgPath != "" {
+				continue // unexported
+			}
+			b.WriteString(v.Type().Field(i).Name + "=")
+			canonValue(v.Field(i), b)
+			b.WriteString(" ")
+		}
+		b.WriteString("}")
+	case reflect.Map:
+		keys := v.MapKeys()
+		sort.Slice(keys, func(i, j int) bool { return fmt.Sprint(keys[i].Interface()) < fmt.Sprint(keys[j].Interface()) })
+		b.WriteString("map[")
+		for _, k := range keys {
+			fmt.Fprintf(b, "%v:", k.Interface())
+			canonValue(v.MapIndex(k), b)
+			b.WriteString(" ")
+		}
+		b.WriteString("]")
+	case reflect.Slice:
+		if v.Type().Elem().Kind() == reflect.Uint8 {
+			fmt.Fprintf(b, "x%x", v.Bytes())
+			return
+		}
+		b.WriteString("[")
+		for i := 0; i < v.Len(); i++ {
+			canonValue(v.Index(i), b)
+			b.WriteString(" ")
+		}
+		b.WriteString("]")
+	default:
+		fmt.Fprintf(b, "%v", v.Interface())
+	}
+}
+
+func canonPayload(inst *sm.FSMInstance) string {
+	var b strings.Builder
+	d := inst.FSMDump()
+	if d == nil {
+		return "no-dump"
+	}
+	canonValue(reflect.ValueOf(d.Payload), &b)
+	return b.String()
+}
+
 // keep persists the dump of the last instance (as the node does) and restores it.
 func (w *fsmWorld) keep() (int, bool) {
 	bz, _ := w.last.Dump()
-	if _, err := sm.FromDump(bz); err != nil {
+	restored, err := sm.FromDump(bz)
+	if err != nil {
 		w.emit("keep", "kept-unrestorable")
 		return -1, false
+	}
+	// C19: what comes back is the round that was in memory - every field, every stamp to the nanosecond (a deadline that
+	// moves by a fraction of a second in the dump changes what the restored round answers near it)
+	if w.svcMon != nil {
+		if a, b := canonPayload(w.last), canonPayload(restored); a != b {
+			w.svcMon(fmt.Sprintf("C19 restore_identity: a round in %s comes back from its dump different from what was in memory %s", dumpStateOf(bz), firstDiff(a, b)))
+		}
 	}
 	w.storeRoundTrip(bz)
 	w.store = append(w.store, bz)
@@ -349,6 +433,10 @@ func alphabet(n int, full bool) []alphaItem {
 	add("event_signing_partial_sign_received", "partialSigns", hs("A"), "0", T(7), "0")                  // empty
 	// machine switches and signing control
 	add("event_sig_proposal_init", sigInitArgs(n, 2, T(0))...)
+	// an opening proposal whose list holds a JSON null (second entry)
+	nilArgs := sigInitArgs(n, 2, T(0))
+	nilArgs[4+3], nilArgs[4+4], nilArgs[4+5] = "NIL", "x", "x"
+	add("event_sig_proposal_init", nilArgs...)
 	add("event_dkg_init_process", "default", T(1))
 	add("event_signing_init", "default", T(6))
 	add("event_signing_start", "signStart", hs("A"), "0", T(7), "1", hs("m1"), hs("f"), "x6d", "0", "0")
